@@ -66,7 +66,7 @@ func ruleL1(c *Ctx, id string) {
 	perFn := map[string]int{}
 	for _, k := range keys {
 		s := sites[k]
-		base := fmt.Sprintf("%s|acquire %s", FuncName(s.fn), s.callee)
+		base := fmt.Sprintf("%s|acquire %s", FuncName(ownerOf(s.fn)), s.callee)
 		perFn[base]++
 		key := base
 		if perFn[base] > 1 {
